@@ -139,7 +139,7 @@ func (g *Gen) Make(kind string, kids, hidden []*Node) *Node {
 		n.N = []int{r.Intn(len(Sentinels))}
 	case "errno":
 		n.N = []int{r.Intn(len(Errnos))}
-	case "tags":
+	case "tags", "tagsafe":
 		n.N = []int{r.Intn(100)}
 	case "http":
 		n.N = []int{400 + r.Intn(200)}
